@@ -222,6 +222,27 @@ def reuse_and_environment_cases(ctx, tmp):
                 f.close()
         if got != second or back != second:
             ctx.fail('archive-replay-differs:reuse', 'second recording %s replays as %s' % (second, back[:5]), case)
+    # (a') environment variables of build sandboxes are no business of a recording
+    for val in ('0', '1', '315532799'):
+        saved = os.environ.get('SOURCE_DATE_EPOCH')
+        os.environ['SOURCE_DATE_EPOCH'] = val
+        case = dict(environment='SOURCE_DATE_EPOCH=' + val, n=3)
+        ctx.case(('env', val), True, sample=case)
+        ctx.count('environment_variable')
+        try:
+            f = io.BytesIO()
+            got = list(savestream(iter(['a', None, 3]), f, compresslevel=1))
+            f.seek(0)
+            back = list(loadstream(f))
+            if got != ['a', None, 3] or back != got:
+                ctx.fail('archive-replay-differs:environment', 'with SOURCE_DATE_EPOCH=%s the stream is %s, the replay %s' % (val, got, back), case)
+        except Exception as e:  # noqa
+            ctx.fail('archive-unreadable-after-stop:environment', 'with SOURCE_DATE_EPOCH=%s recording / replaying raised %r' % (val, e), case)
+        finally:
+            if saved is None:
+                os.environ.pop('SOURCE_DATE_EPOCH', None)
+            else:
+                os.environ['SOURCE_DATE_EPOCH'] = saved
     # (b) the recording process runs with assertions compiled away (python -O / -OO)
     for flag in ('-O', '-OO'):
         path = os.path.join(tmp, 'opt%s.zip' % flag.strip('-'))
@@ -306,6 +327,22 @@ def check(ctx):
             if got != elems or back != elems:
                 ctx.fail('archive-order-depends-on-names', 'a stream whose member numbers cross 10^6 (numbering started at %d) replays as %s' % (start, back),
                          dict(member_numbering_starts_at=start, n=14))
+        # more members than a plain (non-ZIP64) archive can hold: 2**16 + a few
+        from generatorpipeline.streamfunctions import savestream, loadstream
+        N16 = 65540
+        p16 = os.path.join(tmp, 'many.zip')
+        case16 = dict(n=N16, stop='exhaust', target='name', compresslevel=0)
+        ctx.case(('many-members', N16), True, sample=case16)
+        ctx.count('stream_beyond_65535_members')
+        try:
+            cnt16 = sum(1 for _ in savestream(iter(range(N16)), p16, compresslevel=0))
+            ok16 = cnt16 == N16 and all(x == i for i, x in enumerate(loadstream(p16)))
+            why = 'handed through %d of %d' % (cnt16, N16)
+        except Exception as e:  # noqa
+            ok16, why = False, 'raised %r' % (e,)
+        if not ok16:
+            ctx.fail('archive-length-limited', 'a %d-element stream: %s' % (N16, why), case16)
+        os.unlink(p16) if os.path.exists(p16) else None
         if not ctx.quick:
             # names beyond data/999999 no longer sort lexicographically: order must come from the archive, not from names
             from generatorpipeline.streamfunctions import savestream, loadstream
